@@ -11,6 +11,50 @@ NEXT_RX = re.compile(r"^<compaction::stream::CompactionStream<.*> as std::iter::
 DRAIN = "compaction::stream::CompactionStream::<'a, I, F>::drain_key"
 
 
+def unconditional_nodes(n, allow_iflet_callback=True):
+    """Nodes of a statement that are evaluated whenever the statement is (no descent into branches, arms, loops, closures)."""
+    if isinstance(n, list):
+        for x in n:
+            for y in unconditional_nodes(x, allow_iflet_callback):
+                yield y
+        return
+    if not isinstance(n, dict):
+        return
+    yield n
+    k = n.get("k")
+    if k == "if":
+        for y in unconditional_nodes(n["c"], allow_iflet_callback):
+            yield y
+        c = n["c"]
+        if allow_iflet_callback and c.get("k") == "letx" and "dropped_callback" in hir_expr_str(c["init"]) and "e" not in n:
+            for y in unconditional_nodes(n["t"], allow_iflet_callback):
+                yield y
+        return
+    if k == "match":
+        for y in unconditional_nodes(n["e"], allow_iflet_callback):
+            yield y
+        return
+    if k in ("loop", "for", "closure"):
+        if k == "for":
+            for y in unconditional_nodes(n["iter"], allow_iflet_callback):
+                yield y
+        return
+    if k == "block":
+        for st in n.get("s", []):
+            for y in unconditional_nodes(st, allow_iflet_callback):
+                yield y
+        if "e" in n:
+            for y in unconditional_nodes(n["e"], allow_iflet_callback):
+                yield y
+        return
+    for kk, v in n.items():
+        if kk in ("pat", "params"):
+            continue
+        if isinstance(v, (dict, list)):
+            for y in unconditional_nodes(v, allow_iflet_callback):
+                yield y
+
+
 class StreamModel:
     def __init__(self, prog):
         self.prog = prog
@@ -77,11 +121,13 @@ class StreamModel:
     def before_texts(self, site):
         return [self.norm(hir_expr_str(b, 200)) for b in site.before]
 
-    def before_has_call(self, site, method, arg=None):
-        """Is a call of `method` (optionally with the given normalised argument text) among the statements preceding
-        the site (searching inside those statements)?"""
+    def before_has_call(self, site, method, arg=None, allow_iflet_callback=True):
+        """Is a call of `method` (optionally with the given normalised argument text) executed unconditionally by one
+        of the statements preceding the site?  Conditional sub-blocks of those statements (if/else branches, match
+        arms, loops, closures) are not searched - except the `if let Some(w) = &mut self.dropped_callback { w.m(..) }`
+        idiom, whose only condition is the presence of the callback."""
         for b in site.before:
-            for m in hir_walk(b):
+            for m in unconditional_nodes(b, allow_iflet_callback):
                 if m.get("k") == "mcall" and m.get("m") == method:
                     if arg is None or any(self.norm(hir_expr_str(a)) == arg for a in m["a"]):
                         return True
